@@ -99,9 +99,36 @@ def check_conflating_dict(sc, tr, rc):
     return V, C, "violation" if V else "held"
 
 
+def check_lifecycle(tr):
+    """Nodes start in index order and stop in the reverse order, whatever the queues hold when the run stops."""
+    out = []
+    starts = [i for k, i in tr.lifecycle if k == "start"]
+    stops = [i for k, i in tr.lifecycle if k == "stop"]
+    if starts and starts != sorted(starts):
+        out.append(f"nodes started in the order {starts}, not in evaluation order")
+    if stops and stops != sorted(stops, reverse=True):
+        out.append(f"nodes stopped in the order {stops} (started {starts}): not the reverse of the start order")
+    if starts and tr.run is not None and sorted(stops) != sorted(starts):
+        out.append(f"started nodes {starts} but stopped {stops}")
+    return out
+
+
 def check(sc, tr, rc):
     if sc.kv.get("kind") == "cpush":
         return check_conflating_dict(sc, tr, rc)
+    if tr is not None and tr.run is not None and getattr(tr, "lifecycle", None) and sc.kv.get("kind", "push") == "push":
+        lv = check_lifecycle(tr)
+        V, C, verdict = _check_push(sc, tr, rc)
+        C["stop_orders_checked"] = 1
+        pend = [d[3] for d in tr.deliveries]
+        C["stops_with_values_still_queued"] = 1 if (tr.stop and len({x for d in tr.deliveries for x in d[4]}) < sum(1 for s in tr.sends if s[5] == 1 and s[1] != "late")) else 0
+        if lv:
+            return V + lv, C, "violation"
+        return V, C, verdict
+    return _check_push(sc, tr, rc)
+
+
+def _check_push(sc, tr, rc):
     nsrc = int(sc.kv.get("sources", 1))
     if nsrc > 1 and tr is not None and tr.run is not None:
         # several push sources in ONE graph: each source is a queue of its own (its producers are those with p % sources == s)
